@@ -99,6 +99,9 @@ def cubic_spline(
         inputs = (inputs - bottom) / (top - bottom)
     else:
         inputs = (inputs - left) / (right - left)
+    # Inputs that pass the domain check can still normalise to just outside [0, 1] by rounding (a box
+    # edge that is not representable in the working precision); keep them on the spline.
+    inputs = torch.clamp(inputs, 0, 1)
 
     widths = F.softmax(unnormalized_widths, dim=-1)
     widths = min_bin_width + (1 - min_bin_width * num_bins) * widths
